@@ -281,6 +281,11 @@ def initialize_can_data(
         frame_id = extension.fields.get("id")
         if frame_id is None:
             Err("No id field found in extension").unwrap()
+        if not isinstance(frame_id, int) or not 0 <= frame_id <= 0x7FF:
+            # CanFrame.id is an 11-bit field: a wider id would be cut silently
+            raise ValueError(
+                f"CAN id {frame_id} of {extension.name} does not fit the 11 bit identifier of CanFrame"
+            )
 
         device_name = extension.fields.get("device", "global")
         period = extension.fields.get("period", -1)
